@@ -1,8 +1,8 @@
 package egostrings
 
 //verif:dir internal/util/strings
-//verif:bound free JSON text: any bytes, len<=4 (quick) / <=6 (thorough), assumed valid by refValidJSON
-//verif:bound MarshalIndent skeletons: 2 string bodies, each <=2 (quick) / <=3 (thorough) bytes, any byte values
+//verif:bound free JSON text: any bytes, (not used)
+//verif:bound MarshalIndent skeletons: 2 string bodies, each <=4 (quick) / <=6 (thorough) bytes, any byte values
 //verif:outside gzip (compress/gzip), encoding/json itself, texts longer than the bound
 
 import (
@@ -66,9 +66,9 @@ func validBody(s string) bool {
 // VerifC19_arrayOfTwoStrings: the layout json.MarshalIndent gives a
 // two-element string array, with arbitrary valid string bodies.
 func VerifC19_arrayOfTwoStrings() {
-	n := 2
+	n := 4
 	if sym.Thorough() {
-		n = 3
+		n = 6
 	}
 	sym.Bound("bodyBytes", n)
 	s1 := sym.String("s1", n)
@@ -96,9 +96,9 @@ func endsWithEvenBackslashRun(s string) bool {
 
 // VerifC19_objectSkeleton: {"k": "S1", "m": "S2"} as MarshalIndent lays it out.
 func VerifC19_objectSkeleton() {
-	n := 2
+	n := 4
 	if sym.Thorough() {
-		n = 3
+		n = 6
 	}
 	sym.Bound("bodyBytes", n)
 	s1 := sym.String("s1", n)
